@@ -113,7 +113,7 @@ package types
 //@   loop 2 invariant len(fs) == len(o.Fields) && isfresh(fs) && forall(j, 0, rangeindex+1, wfT(fs[j].Val) && allocated(fs[j].Val) && fs[j].Name == o.Fields[j].Name)
 //@   loop 3 invariant len(params) == len(f.Param) && isfresh(params) && forall(j, 0, rangeindex+1, wfT(params[j]) && allocated(params[j]))
 //@   unfold @return wfT(result)
-//@   ensures #wf wfT(result)
+//@   ensures #wf wfT(result) && result != nil
 
 // unify: local soundness of every binding it makes.  Where the substitution
 // map is written, the bound type does not contain the variable (occurs
@@ -158,3 +158,207 @@ package types
 //@   loop 2 invariant forall(j, 0, rangeindex+1, ground(ty.Obj().Fields[j].Val))
 //@   loop 3 invariant forall(j, 0, rangeindex+1, ground(ty.Fun().Param[j]))
 //@   ensures #ground result == ground(ty)
+
+// ---- type constructors (C05, C17): what they build --------------------------
+//@ func List
+//@   props C05 C17 C01
+//@   nopanic
+//@   fresh
+//@   modifies
+//@   unfold @return wfT(result)
+//@   ensures #node result.Kind == KList && dynis(result, ListTy) && result.List().El == el
+//@   ensures #wf wfT(el) ==> wfT(result)
+
+//@ func Map
+//@   props C05 C17 C01
+//@   requires k != nil
+//@   fails_iff !(k.Kind == KNum || k.Kind == KStr || k.Kind == KBool || k.Kind == KTime || k.Kind == KTyVar || k.Kind == KBot)
+//@   fresh
+//@   modifies
+//@   unfold @return wfT(result)
+//@   ensures #node result.Kind == KMap && dynis(result, MapTy) && result.Map().Key == k && result.Map().Val == v
+//@   ensures #wf wfT(k) && wfT(v) ==> wfT(result)
+
+// ---- the typing rules (C05) -------------------------------------------------
+// typeAssert returns only for equal types; arityAssert only for equal counts.
+//@ func typeAssert
+//@   props C05 C16
+//@   requires wfT(expect) && wfT(actual)
+//@   fails_iff !tyEq(expect, actual)
+//@   modifies
+
+//@ func arityAssert
+//@   props C05
+//@   fails_iff expect != actual
+//@   modifies
+
+// ASSUMED (environment invariant): the types bound in a typing environment
+// are well-formed type trees (they are built by the constructors above / by
+// conv.TypeOf); the lookup itself writes nothing.
+//@ func (*Env).Get
+//@   props C05 C07
+//@   trusted
+//@   requires e != nil
+//@   modifies
+//@   ensures result1 ==> wfT(result0)
+
+// Overload resolution (C05): "an exactly matching monomorphic overload first,
+// otherwise the first registered polymorphic overload whose parameters can be
+// instantiated".  Proved as the sequence of lookups and instantiation attempts
+// the function makes: the monomorphic key is looked up first and, when present,
+// decides; otherwise the polymorphic candidates are tried in registration
+// order and the first one inferFun can instantiate is returned, with its
+// position attached to the call node.  inferFun itself (unification of the
+// candidate against the argument types) is ASSUMED here; its building blocks
+// are under contract above.
+// ASSUMED (environment invariant): function types registered in a typing
+// environment are well-formed; the lookups write nothing.
+//@ func (*Env).GetMonoFun
+//@   props C05
+//@   trusted
+//@   requires e != nil
+//@   modifies
+//@   ensures result1 ==> result0 != nil && result0.Kind == KFun && dynis(result0, FunTy) && wfT(result0.Return) && forall(i, 0, len(result0.Param), wfT(result0.Param[i]))
+
+//@ func (*Env).GetPolyFuns
+//@   props C05
+//@   trusted
+//@   requires e != nil
+//@   modifies
+//@   ensures result1 ==> forall(i, 0, len(result0), result0[i] != nil && result0[i].Kind == KFun && dynis(result0[i], FunTy) && wfT(result0[i].Return) && allocated(result0[i].Return) && forall(k, 0, len(result0[i].Param), wfT(result0[i].Param[k]) && allocated(result0[i].Param[k])))
+
+//@ func Fun
+//@   props C05 C17
+//@   nopanic
+//@   fresh
+//@   modifies
+//@   unfold @return wfT(result)
+//@   ensures #node result.Kind == KFun && dynis(result, FunTy) && result.Fun().Name == name && same(result.Fun().Param, param) && result.Fun().Return == ret
+//@   ensures #wf old(forall(i, 0, len(param), wfT(param[i]) && allocated(param[i])) && wfT(ret) && allocated(ret)) ==> wfT(result)
+
+// which table an overload lives in: monomorphic iff its type has no type variable
+//@ func (*FunTy).OverLoaded
+//@   props C05
+//@   requires f != nil && wfT(f.Ty())
+//@   modifies
+//@   ensures #kind result1 == ite(ground(f.Ty()), MonoFun, PolyFun)
+
+//@ func resolveOverloadedFun
+//@   props C05
+//@   requires env != nil && call != nil && forall(i, 0, len(args), wfT(args[i]) && allocated(args[i]))
+//@   uses dyncalls-pure dyncalls-nopanic
+//@   modifies call.Resolved, call.Index
+//@   records Fun (*FunTy).OverLoaded (*Env).GetMonoFun (*Env).GetPolyFuns inferFun
+//@   uses types.init
+//@   unfold wfT(Bottom)
+//@   at call dyn: assume wfT(callret(old(ncalls()))) && allocated(callret(old(ncalls())))
+//@   loop 1 invariant #wf forall(i, 0, len(fnTys), fnTys[i] != nil && fnTys[i].Kind == KFun && dynis(fnTys[i], FunTy) && wfT(fnTys[i].Return) && allocated(fnTys[i].Return) && forall(k, 0, len(fnTys[i].Param), wfT(fnTys[i].Param[k]) && allocated(fnTys[i].Param[k])))
+//@   loop 1 invariant #a rangeindex + 1 <= len(fnTys) && scalls() == 6 + rangeindex + 1 && same(fnTys, sret(5, GetPolyFuns, 0)) && sret(5, GetPolyFuns, 1) && polyFnKey == sret(4, OverLoaded, 0)
+//@   loop 1 invariant #b scall(0, Fun, fnName, args, Bottom) && scall(1, OverLoaded, sret(0, Fun).Fun()) && scall(2, GetMonoFun, env, sret(1, OverLoaded, 0)) && !sret(2, GetMonoFun, 1) && scall(3, Fun, fnName, args) && scall(4, OverLoaded, sret(3, Fun).Fun()) && scall(5, GetPolyFuns, env, sret(4, OverLoaded, 0))
+//@   loop 1 invariant #c forall(j, 0, rangeindex + 1, scall(6 + j, inferFun, fnTys[j].Fun(), args) && sret(6 + j, inferFun) == nil)
+//@   ensures #mono-key scall(0, Fun, fnName, args, Bottom) && scall(1, OverLoaded, sret(0, Fun).Fun()) && sret(1, OverLoaded, 1) == MonoFun && scall(2, GetMonoFun, env, sret(1, OverLoaded, 0))
+//@   ensures #mono-first sret(2, GetMonoFun, 1) ==> scalls() == 3 && result == sret(2, GetMonoFun, 0).Fun() && call.Resolved == sret(1, OverLoaded, 0)
+//@   ensures #poly-key !sret(2, GetMonoFun, 1) ==> scall(3, Fun, fnName, args) && scall(4, OverLoaded, sret(3, Fun).Fun()) && sret(4, OverLoaded, 1) == PolyFun && scall(5, GetPolyFuns, env, sret(4, OverLoaded, 0)) && sret(5, GetPolyFuns, 1)
+//@   ensures #first-instantiable !sret(2, GetMonoFun, 1) ==> 0 <= call.Index && call.Index < len(sret(5, GetPolyFuns, 0)) && scalls() == 6 + call.Index + 1 && forall(j, 0, call.Index, scall(6 + j, inferFun, sret(5, GetPolyFuns, 0)[j].Fun(), args) && sret(6 + j, inferFun) == nil) && scall(6 + call.Index, inferFun, sret(5, GetPolyFuns, 0)[call.Index].Fun(), args) && result == sret(6 + call.Index, inferFun) && result != nil && call.Resolved == sret(4, OverLoaded, 0)
+//@   ensures #wf result != nil && wfT(result.Return) && forall(i, 0, len(result.Param), wfT(result.Param[i]))
+
+//@ func Tuple
+//@   props C05 C17
+//@   nopanic
+//@   fresh
+//@   modifies
+//@   unfold @return wfT(result)
+//@   ensures #node result.Kind == kTuple && dynis(result, TupleTy) && same(result.Tuple().Val, val)
+//@   ensures #wf old(forall(i, 0, len(val), wfT(val[i]) && allocated(val[i]))) ==> wfT(result)
+
+//@ func Unify
+//@   props C05 C17
+//@   requires wfT(s) && wfT(t) && wfSubst(m)
+//@   modifies m[*]
+//@   ensures #subst wfSubst(m)
+//@   ensures #result result != nil ==> wfT(result)
+
+// Instantiation of one overload against the argument types (C05): the
+// candidate's parameter tuple is unified with a tuple of fresh variables, the
+// substituted tuple with the argument tuple; the candidate is rejected when
+// either unification fails or the substituted result type still contains a
+// type variable ("fully concrete result"); otherwise the instance is built
+// from the UNIFIED argument tuple and the substituted result.  Proved as the
+// sequence of constructor / Unify / applySubst / slotFree calls made and how
+// their results are used; the meaning of those calls is their own contract.
+// ASSUMED (stated at the call): types.TyVar returns a well-formed fresh
+// variable and has no other effect visible here.
+//@ func inferFun
+//@   props C05
+//@   requires f != nil && wfT(f.Return) && allocated(f.Return) && forall(i, 0, len(f.Param), wfT(f.Param[i]) && allocated(f.Param[i])) && forall(i, 0, len(args), wfT(args[i]) && allocated(args[i]))
+//@   uses dyncalls-pure dyncalls-nopanic
+//@   unfold @return wfT(sret(7, Unify))
+//@   at call dyn: assume wfT(callret(old(ncalls()))) && allocated(callret(old(ncalls())))
+//@   modifies
+//@   records Tuple Fun Unify applySubst slotFree
+//@   loop 1 invariant #a 0 <= i && i <= len(args) && len(sx) == len(args) && isfresh(sx) && scalls() == 0
+//@   loop 1 invariant #b forall(j, 0, i, wfT(sx[j]))
+//@   loop 1 invariant #c forall(j, 0, i, allocated(sx[j]))
+//@   ensures #pseudo scall(0, Tuple) && len(sarg(0, Tuple, 0)) == len(args) && scall(1, Fun, f.Name) && len(sarg(1, Fun, 1)) == 1 && sarg(1, Fun, 1)[0] == sret(0, Tuple)
+//@   ensures #candidate scall(2, Tuple, f.Param) && scall(3, Fun, f.Name, _, f.Return) && len(sarg(3, Fun, 1)) == 1 && sarg(3, Fun, 1)[0] == sret(2, Tuple) && scall(4, Unify, sret(1, Fun), sret(3, Fun))
+//@   ensures #reject-shape sret(4, Unify) == nil ==> result == nil && scalls() == 5
+//@   ensures #arguments sret(4, Unify) != nil ==> scall(5, Tuple, args) && scall(6, applySubst, sret(0, Tuple), sarg(4, Unify, 2)) && scall(7, Unify, sret(6, applySubst), sret(5, Tuple), sarg(4, Unify, 2))
+//@   ensures #reject-args sret(4, Unify) != nil && (sret(7, Unify) == nil || sret(7, Unify).Kind != kTuple) ==> result == nil && scalls() == 8
+//@   ensures #result-type sret(4, Unify) != nil && sret(7, Unify) != nil && sret(7, Unify).Kind == kTuple ==> scall(8, applySubst, sarg(1, Fun, 2), sarg(4, Unify, 2)) && scall(9, slotFree, sret(8, applySubst)) && (!sret(9, slotFree) ==> result == nil && scalls() == 10)
+//@   ensures #instance sret(4, Unify) != nil && sret(7, Unify) != nil && sret(7, Unify).Kind == kTuple && sret(9, slotFree) ==> scalls() == 11 && scall(10, Fun, f.Name, sret(7, Unify).Tuple().Val, sret(8, applySubst)) && result == sret(10, Fun).Fun()
+//@   ensures #wf result != nil ==> wfT(result.Return) && forall(i, 0, len(result.Param), wfT(result.Param[i]))
+
+// Check: the syntax-directed rules.  For each node kind the postcondition
+// states (1) the exact sequence of sub-checks and assertions performed
+// (activation-local log of the calls made: every sub-expression is checked
+// exactly once, in source order, and every comparison the rule demands is made
+// on the types those checks returned), (2) the type returned, and (3) what is
+// attached to the node for the back ends.  Together with the contracts of
+// typeAssert / arityAssert (they return only on equality) a normal return
+// means the node satisfies its rule; an ill-typed node cannot be accepted.
+//@ func Check
+//@   props C05 C01 C16
+//@   requires env != nil
+//@   modifies anyfield(ast.ListExpr.Type), anyfield(ast.MapExpr.Type), anyfield(ast.ObjExpr.Type), anyfield(ast.CallExpr.CalleeType), anyfield(ast.CallExpr.Resolved), anyfield(ast.CallExpr.Index), anyfield(ast.SubscriptExpr.VarType), anyfield(ast.MemberExpr.ObjType), anyfield(ast.MemberExpr.Index)
+//@   records Check typeAssert arityAssert resolveOverloadedFun inferFun (*Env).Get lexer.Reserved Map Obj
+//@   uses types.init
+//@   loop 1 invariant #a 1 <= i && i <= sz && sz == len(expr.(*ast.ListExpr).Elems)
+//@   loop 1 invariant #b wfT(elTy) && elTy == sret(0, Check)
+//@   loop 1 invariant #c scalls() == 2 * i - 1 && scall(0, Check, expr.(*ast.ListExpr).Elems[0], env)
+//@   loop 1 invariant #d forall(j, 1, i, scall(2 * j - 1, Check, expr.(*ast.ListExpr).Elems[j], env) && scall(2 * j, typeAssert, elTy, sret(2 * j - 1, Check), expr) && tyEq(elTy, sret(2 * j - 1, Check)))
+//@   loop 2 invariant #a 1 <= i && i <= sz && sz == len(expr.(*ast.MapExpr).Pairs)
+//@   loop 2 invariant #b wfT(kTy) && wfT(vTy) && kTy == sret(0, Check) && vTy == sret(1, Check) && kTy.Kind > kPrimitiveBegin && kTy.Kind < kCompositeBegin
+//@   loop 2 invariant #c scalls() == 4 * i - 2 && scall(0, Check, expr.(*ast.MapExpr).Pairs[0].Key, env) && scall(1, Check, expr.(*ast.MapExpr).Pairs[0].Val, env)
+//@   loop 2 invariant #d forall(j, 1, i, scall(4 * j - 2, Check, expr.(*ast.MapExpr).Pairs[j].Key, env) && scall(4 * j - 1, typeAssert, kTy, sret(4 * j - 2, Check), expr) && scall(4 * j, Check, expr.(*ast.MapExpr).Pairs[j].Val, env) && scall(4 * j + 1, typeAssert, vTy, sret(4 * j, Check), expr) && tyEq(kTy, sret(4 * j - 2, Check)) && tyEq(vTy, sret(4 * j, Check)))
+//@   loop 3 invariant #a rangeindex + 1 <= len(expr.(*ast.ObjExpr).Fields) && len(fs) == sz && sz == len(expr.(*ast.ObjExpr).Fields) && isfresh(fs) && scalls() == rangeindex + 1
+//@   loop 3 invariant #b forall(j, 0, rangeindex + 1, scall(j, Check, expr.(*ast.ObjExpr).Fields[j].Val, env) && fs[j].Name == expr.(*ast.ObjExpr).Fields[j].Name && fs[j].Val == sret(j, Check) && wfT(fs[j].Val) && allocated(fs[j].Val))
+//@   loop 4 invariant #a 0 <= i && i <= argSz && argSz == len(expr.(*ast.CallExpr).Args) && len(args) == argSz && isfresh(args) && scalls() == i
+//@   loop 4 invariant #b forall(j, 0, i, scall(j, Check, expr.(*ast.CallExpr).Args[j], env) && args[j] == sret(j, Check) && wfT(args[j]) && allocated(args[j]))
+//@   loop 5 invariant #a 0 <= i && i <= paramSz && paramSz == len(fun.Param) && paramSz == argSz && argSz == len(expr.(*ast.CallExpr).Args) && len(args) == argSz
+//@   loop 5 invariant #b forall(j, 0, argSz, args[j] == sret(j, Check) && wfT(args[j])) && forall(j, 0, paramSz, wfT(fun.Param[j]))
+//@   loop 5 invariant #c forall(j, 0, i, tyEq(fun.Param[j], args[j]))
+//@   unfold wfT(Bottom)
+//@   unfold wfT(Num)
+//@   unfold wfT(Str)
+//@   unfold wfT(Bool)
+//@   unfold wfT(Time)
+//@   at call typeAssert: unfold wfT(varTy)
+//@   at call inferFun: unfold wfT(f)
+//@   unfold @return wfT(sret(0, Check))
+//@   unfold @return wfT(result)
+//@   ensures #wf wfT(result) && allocated(result)
+//@   ensures #str typeis(expr, *ast.StrExpr) ==> result == Str && scalls() == 0
+//@   ensures #num typeis(expr, *ast.NumExpr) ==> result == Num && scalls() == 0
+//@   ensures #bool typeis(expr, *ast.BoolExpr) ==> result == Bool && scalls() == 0
+//@   ensures #time typeis(expr, *ast.TimeExpr) ==> result == Time && scalls() == 0
+//@   ensures #list-empty typeis(expr, *ast.ListExpr) && len(expr.(*ast.ListExpr).Elems) == 0 ==> result.Kind == KList && result.List().El == Bottom && expr.(*ast.ListExpr).Type.(*Type) == result
+//@   ensures #list typeis(expr, *ast.ListExpr) && len(expr.(*ast.ListExpr).Elems) > 0 ==> result.Kind == KList && result.List().El == sret(0, Check) && expr.(*ast.ListExpr).Type.(*Type) == result && scalls() == 2 * len(expr.(*ast.ListExpr).Elems) - 1 && scall(0, Check, expr.(*ast.ListExpr).Elems[0], env) && forall(j, 1, len(expr.(*ast.ListExpr).Elems), scall(2 * j - 1, Check, expr.(*ast.ListExpr).Elems[j], env) && tyEq(result.List().El, sret(2 * j - 1, Check)))
+//@   ensures #map-empty typeis(expr, *ast.MapExpr) && len(expr.(*ast.MapExpr).Pairs) == 0 ==> result.Kind == KMap && result.Map().Key == Bottom && result.Map().Val == Bottom && expr.(*ast.MapExpr).Type.(*Type) == result
+//@   ensures #map typeis(expr, *ast.MapExpr) && len(expr.(*ast.MapExpr).Pairs) > 0 ==> result.Kind == KMap && result.Map().Key == sret(0, Check) && result.Map().Val == sret(1, Check) && result.Map().Key.Kind > kPrimitiveBegin && result.Map().Key.Kind < kCompositeBegin && expr.(*ast.MapExpr).Type.(*Type) == result && scall(0, Check, expr.(*ast.MapExpr).Pairs[0].Key, env) && scall(1, Check, expr.(*ast.MapExpr).Pairs[0].Val, env) && forall(j, 1, len(expr.(*ast.MapExpr).Pairs), scall(4 * j - 2, Check, expr.(*ast.MapExpr).Pairs[j].Key, env) && scall(4 * j, Check, expr.(*ast.MapExpr).Pairs[j].Val, env) && tyEq(result.Map().Key, sret(4 * j - 2, Check)) && tyEq(result.Map().Val, sret(4 * j, Check)))
+//@   ensures #obj typeis(expr, *ast.ObjExpr) ==> result.Kind == KObj && expr.(*ast.ObjExpr).Type.(*Type) == result && len(result.Obj().Fields) == len(expr.(*ast.ObjExpr).Fields) && forall(j, 0, len(expr.(*ast.ObjExpr).Fields), scall(j, Check, expr.(*ast.ObjExpr).Fields[j].Val, env) && result.Obj().Fields[j].Name == expr.(*ast.ObjExpr).Fields[j].Name && result.Obj().Fields[j].Val == sret(j, Check))
+//@   ensures #ident typeis(expr, *ast.IdentExpr) ==> scalls() == 2 && scall(0, Reserved, expr.(*ast.IdentExpr).Name) && !sret(0, Reserved) && scall(1, Get, env, expr.(*ast.IdentExpr).Name) && sret(1, Get, 1) && result == sret(1, Get, 0)
+//@   ensures #call-args typeis(expr, *ast.CallExpr) ==> forall(j, 0, len(expr.(*ast.CallExpr).Args), scall(j, Check, expr.(*ast.CallExpr).Args[j], env))
+//@   ensures #call-named typeis(expr, *ast.CallExpr) && typeis(expr.(*ast.CallExpr).Callee, *ast.IdentExpr) ==> scall(len(expr.(*ast.CallExpr).Args), resolveOverloadedFun, env, expr.(*ast.CallExpr), expr.(*ast.CallExpr).Callee.(*ast.IdentExpr).Name) && len(sarg(len(expr.(*ast.CallExpr).Args), resolveOverloadedFun, 3)) == len(expr.(*ast.CallExpr).Args) && forall(j, 0, len(expr.(*ast.CallExpr).Args), sarg(len(expr.(*ast.CallExpr).Args), resolveOverloadedFun, 3)[j] == sret(j, Check)) && result == sret(len(expr.(*ast.CallExpr).Args), resolveOverloadedFun).Return && len(sret(len(expr.(*ast.CallExpr).Args), resolveOverloadedFun).Param) == len(expr.(*ast.CallExpr).Args) && forall(j, 0, len(expr.(*ast.CallExpr).Args), tyEq(sret(len(expr.(*ast.CallExpr).Args), resolveOverloadedFun).Param[j], sret(j, Check))) && expr.(*ast.CallExpr).CalleeType.(*Type) == sret(len(expr.(*ast.CallExpr).Args), resolveOverloadedFun).Ty()
+//@   ensures #call-value typeis(expr, *ast.CallExpr) && !typeis(expr.(*ast.CallExpr).Callee, *ast.IdentExpr) ==> scall(len(expr.(*ast.CallExpr).Args), Check, expr.(*ast.CallExpr).Callee, env) && sret(len(expr.(*ast.CallExpr).Args), Check).Kind == KFun && scall(len(expr.(*ast.CallExpr).Args) + 1, inferFun, sret(len(expr.(*ast.CallExpr).Args), Check).Fun()) && result == sret(len(expr.(*ast.CallExpr).Args) + 1, inferFun).Return && len(sret(len(expr.(*ast.CallExpr).Args) + 1, inferFun).Param) == len(expr.(*ast.CallExpr).Args) && forall(j, 0, len(expr.(*ast.CallExpr).Args), tyEq(sret(len(expr.(*ast.CallExpr).Args) + 1, inferFun).Param[j], sret(j, Check)))
+//@   ensures #subscript typeis(expr, *ast.SubscriptExpr) ==> scall(0, Check, expr.(*ast.SubscriptExpr).Var, env) && scall(1, Check, expr.(*ast.SubscriptExpr).Idx, env) && scalls() == 3 && expr.(*ast.SubscriptExpr).VarType.(*Type) == sret(0, Check) && ite(sret(0, Check).Kind == KList, tyEq(sret(1, Check), Num) && result == sret(0, Check).List().El, sret(0, Check).Kind == KMap && tyEq(sret(1, Check), sret(0, Check).Map().Key) && result == sret(0, Check).Map().Val)
+//@   ensures #member typeis(expr, *ast.MemberExpr) ==> scalls() == 1 && scall(0, Check, expr.(*ast.MemberExpr).Obj, env) && sret(0, Check).Kind == KObj && expr.(*ast.MemberExpr).ObjType.(*Type) == sret(0, Check) && mapHas(sret(0, Check).Obj().Index, expr.(*ast.MemberExpr).Field.Name) && expr.(*ast.MemberExpr).Index == mapGet(sret(0, Check).Obj().Index, expr.(*ast.MemberExpr).Field.Name) && result == sret(0, Check).Obj().Fields[expr.(*ast.MemberExpr).Index].Val
